@@ -62,8 +62,7 @@ Fixpoint ranks_ok (ranks : keyed_bounds) (rank_i : Z) (items : list pyobj) : Pro
   | [] => True
   | o :: t => (match o with
                | OFrozen l => in_bounds (kb_get ranks (rank_i + 1)) (qnat (length l)) = true
-               | OList _ => False
-               | _ => True
+               | _ => hashable o = true        (* no list, no tuple holding a list: set.add raises TypeError on those *)
                end) /\ ranks_ok ranks (rank_i + 1) t
   end.
 
@@ -75,15 +74,18 @@ Lemma ranked_scan_spec ranks items : forall rank_i total cands,
 Proof.
   induction items as [|o t IH]; intros rank_i total cands.
   - simpl. split; [intros _; rewrite Nat.add_0_r; reflexivity|intros; exact I].
-  - assert (Hgen : forall o0, (match o0 with OFrozen _ | OList _ => False | _ => True end) ->
-        ranked_scan ranks rank_i (o0 :: t) total cands = ranked_scan ranks (rank_i + 1) t (total + 1) (add_set o0 cands)).
-    { intros o0 H0. destruct o0; simpl; try reflexivity; destruct H0. }
+  - assert (Hgen : forall o0, (match o0 with OFrozen _ => False | _ => True end) ->
+        ranked_scan ranks rank_i (o0 :: t) total cands =
+        if hashable o0 then ranked_scan ranks (rank_i + 1) t (total + 1) (add_set o0 cands) else (VCrash, total, cands)).
+    { intros o0 H0. destruct o0; try reflexivity. destruct H0. }
     destruct o as [k i|n d| |lt|lf|ll].
-    1,2,3,4: (match goal with |- context [ranked_scan _ _ (?x :: _) _ _] =>
+    1,2,3,4,6: (match goal with |- context [ranked_scan _ _ (?x :: _) _ _] =>
       rewrite Hgen by exact I;
-      destruct (IH (rank_i + 1) (total + 1)%nat (add_set x cands)) as [IH1 IH2] end;
-      split; [intros [_ H]; rewrite (IH1 H); simpl; f_equal; f_equal; lia
-             |intros t' c' H; simpl; split; [exact I|eapply IH2; exact H]]).
+      destruct (IH (rank_i + 1) (total + 1)%nat (add_set x cands)) as [IH1 IH2];
+      destruct (hashable x) eqn:Eh end;
+      [split; [intros [_ H]; rewrite (IH1 H); simpl; f_equal; f_equal; lia
+              |intros t' c' H; split; [exact Eh|eapply IH2; exact H]]
+      |split; [intros [H _]; congruence|intros t' c' H; discriminate]]).
     + (* OFrozen *)
       simpl. destruct (in_bounds (kb_get ranks (rank_i + 1)) (qnat (length lf))) eqn:E.
       * destruct (IH (rank_i + 1) (total + length lf)%nat (fold_left (fun s o => add_set o s) lf cands)) as [IH1 IH2].
@@ -91,8 +93,6 @@ Proof.
         -- intros [_ H]. rewrite (IH1 H). rewrite app_length, fold_left_app. f_equal. f_equal. lia.
         -- intros t' c' H. split; [reflexivity|eapply IH2; exact H].
       * split; [intros [H _]; discriminate|intros t' c' H; discriminate].
-    + (* OList *)
-      simpl. split; [intros [[] _]|intros t' c' H; discriminate].
 Qed.
 
 Theorem ranked_iff nm tot ranks v : validate_ranked nm tot ranks v = VOk <->
